@@ -114,7 +114,11 @@ def pose_path(draw, max_len=1, extent=3.0, kinds=("static", "translate", "rotate
     kind = "static" if n == 1 else draw(st.sampled_from([k for k in kinds if k != "static"] or ["static"]))
     pos = [[r6(draw(ufloat(-extent, extent))) for _ in range(3)] for _ in range(n)]
     q0 = draw(quaternion())
-    if kind == "rotate" and n > 1:
+    if kind == "rotate" and n > 1 and draw(st.integers(0, 3)) == 0:
+        # oscillation: +theta, -theta, +theta ... about one axis (quaternions that differ only in the signs of components)
+        q = np.array(q0, dtype=float)
+        ori = [list(q0) if i % 2 == 0 else [-q[0], -q[1], -q[2], q[3]] for i in range(n)]
+    elif kind == "rotate" and n > 1:
         ori = [q0] + [draw(quaternion()) for _ in range(n - 1)]
     else:
         ori = [list(q0) for _ in range(n)]
@@ -454,7 +458,15 @@ def variant_of(draw, spec, max_path=4, pos_extent=1.0):
     f = r6(draw(ufloat(0.5, 1.5)))
     if f == 1.0:
         f = 1.25
-    if "vertices" in out:
+    if "vertices" in out and "faces" in out and draw(st.integers(0, 2)) == 0:
+        # same first face(s), different body: one vertex that the first face does not use is pushed outwards
+        V = np.array(out["vertices"], dtype=float)
+        free = [i for i in range(len(V)) if i not in set(int(j) for j in out["faces"][0])]
+        i = free[draw(st.integers(0, len(free) - 1))] if free else 0
+        c = V.mean(axis=0)
+        V[i] = c + (V[i] - c) * (1.0 + abs(f - 1.0) + 0.1)
+        out["vertices"] = [[r6(x) for x in row] for row in V]
+    elif "vertices" in out:
         V = np.array(out["vertices"], dtype=float)
         V[:, ax] = V[:, ax] * f
         out["vertices"] = [[r6(x) for x in row] for row in V]
